@@ -56,6 +56,26 @@ static void *caller_thread(void *arg)
 	if (got != distinct || ids != adds) w->ok = 0;
 	mtbl_iter_destroy(&it);
 	mtbl_sorter_destroy(&s);
+	/* a second pooled sorter whose merge callback fails for one key while chunks are written on the workers: the application keeps
+	   adding (the pooled sorter cannot report the failure) and finally destroys the sorter without iterating */
+	{
+		struct mtbl_sorter_options *so2 = mtbl_sorter_options_init();
+		mtbl_sorter_options_set_temp_dir(so2, w->tdir);
+		mtbl_sorter_options_set_max_memory(so2, 300 + rndn(r, 500));
+		mclos_t mc2; memset(&mc2, 0, sizeof mc2); mc2.dso_style = 1;
+		static const uint8_t badkey[] = "s00007";
+		mc2.have_fail = 1; mc2.fail_key = badkey; mc2.fail_len = 6;
+		mtbl_sorter_options_set_merge_func(so2, ms_merge_cb, &mc2);
+		mtbl_sorter_options_set_threadpool(so2, w->pool);
+		struct mtbl_sorter *s2 = mtbl_sorter_init(so2);
+		mtbl_sorter_options_destroy(&so2);
+		for (size_t i = 0; i < 200; i++) {
+			unsigned ki = (i % 3 == 0) ? 7 : rndn(r, 60); uint8_t k2[24]; size_t lk2 = snprintf((char *)k2, sizeof k2, "s%05u", ki);
+			uint8_t v3[8]; ms_put_id(v3, i + 1);
+			if (mtbl_sorter_add(s2, k2, lk2, v3, 8) != mtbl_res_success) break;
+		}
+		mtbl_sorter_destroy(&s2);
+	}
 	model_free(&m);
 	return NULL;
 }
